@@ -106,20 +106,54 @@ def limit_n(sp, n):
     return n if all(s.get("beta", 1.0) == 1.0 for s in sp) else min(n, 10)
 
 
+def _small_dyadic(t: float) -> bool:
+    return Fraction(t).denominator <= 2 ** 24
+
+
+def pairs_ambiguous(acts) -> bool:
+    """acts = [(fused activation, tuple of module activations)] of one decision.  The order of two
+    categories is float-ambiguous when their fused activations are closer than 1e-9 (relative),
+    equality included, although their module activations differ — unless all those module
+    activations are small dyadic numbers (then the float sums are exact and the order is the exact one)."""
+    live = [(t, terms) for t, terms in acts if t == t]
+    for i in range(len(live)):
+        for j in range(i + 1, len(live)):
+            (a, ta), (b, tb) = live[i], live[j]
+            if abs(a - b) < 1e-9 * (1.0 + abs(a)) and ta != tb:
+                if not (all(_small_dyadic(v) for v in ta) and all(_small_dyadic(v) for v in tb)):
+                    return True
+    return False
+
+
 class ActLog:
-    """records the fused activations of every training step (to recognise float-ambiguous decisions)"""
+    """records, for every training step, the fused activation of every category together with the
+    module activations it was summed from (to recognise float-ambiguous decisions)"""
 
     def __init__(self, f):
         self.f = f
         self.cur = None
-        self.min_gap = np.inf
+        self.min_gap = np.inf      # 0.0 as soon as one decision was float-ambiguous
+        self.last = None
+        self._terms = None
         o_choice, o_step = f.category_choice, f.step_fit
         log = self
+        for m in f.modules:
+            def cc(i, w, params, _o=m.category_choice):
+                T, c = _o(i, w, params)
+                if log._terms is not None:
+                    log._terms.append(float(T))
+                return T, c
+            object.__setattr__(m, "category_choice", cc)
 
         def category_choice(i, w, params, **kw):
-            T, c = o_choice(i, w, params, **kw)
+            log._terms = []
+            try:
+                T, c = o_choice(i, w, params, **kw)
+                log.last = (float(T), tuple(log._terms))
+            finally:
+                log._terms = None
             if log.cur is not None:
-                log.cur.append(float(T))
+                log.cur.append(log.last)
             return T, c
 
         def step_fit(x, *a, **kw):
@@ -127,28 +161,26 @@ class ActLog:
             try:
                 return o_step(x, *a, **kw)
             finally:
-                t = sorted(v for v in log.cur if v == v)
-                for a_, b_ in zip(t, t[1:]):
-                    if b_ != a_:
-                        log.min_gap = min(log.min_gap, (b_ - a_) / (1.0 + abs(b_)))
+                if pairs_ambiguous(log.cur):
+                    log.min_gap = 0.0
                 log.cur = None
 
         object.__setattr__(f, "category_choice", category_choice)
         object.__setattr__(f, "step_fit", step_fit)
-
-
-def near_tie(T) -> bool:
-    """two distinct activations closer than 1e-9 (relative): the float order may differ from the exact one"""
-    t = sorted(float(v) for v in T if v == v)
-    return any(b != a and (b - a) < 1e-9 * (1.0 + abs(b)) for a, b in zip(t, t[1:]))
+        object.__setattr__(f, "_actlog", self)
 
 
 def ambiguous_rows(f, rows, skip=()) -> bool:
     """does some query row meet a float-ambiguous arg-max (skip = normalised channel numbers)"""
+    log = f.__dict__.get("_actlog") or ActLog(f)
     with quiet():
         W = f.W
         for x in rows:
-            if near_tie([f.category_choice(x, w, f.params, skip_channels=list(skip))[0] for w in W]):
+            acts = []
+            for w in W:
+                f.category_choice(x, w, f.params, skip_channels=list(skip))
+                acts.append(log.last)
+            if pairs_ambiguous(acts):
                 return True
     return False
 
@@ -605,7 +637,7 @@ def oracle_perm(ctx, N, nmax):
         if failed:
             continue
         cov.case((cls, sp, dims, gam, rep["X"].tolist(), perm, mode, eps, vt), len(runs[0][2][0]) >= 2 and perm != list(range(k)))
-        if floats and gap < 1e-9:
+        if gap < 1e-9:
             cov.hit("perm-float-ambiguous(skipped)")
             continue
         cov.hit("perm-float" if floats else "perm-grid")
